@@ -433,12 +433,10 @@ contract("helpers.add_defendant",
         # C17: the extracted plaintiff is the text at the start of the full span, the defendant lies inside it
         "plaintiff_at_full_span_start": f"citation.metadata.plaintiff is None or ({FSS} is not None and 0 <= {FSS} and {FSS} + len(citation.metadata.plaintiff) <= {S0} "
                                         f"and ghost.text[{FSS}:{FSS} + len(citation.metadata.plaintiff)] == citation.metadata.plaintiff)",
-        "defendant_inside": f"citation.metadata.defendant is None or ({FSS} is not None and in_window(citation.metadata.defendant, ghost.text, {FSS}, {S0}))",
         # C18
         "year_sound": YEAR_INV,
-        "year_inside": f"citation.metadata.year is None or citation.metadata.year == old(citation.metadata.year) or ({FSS} is not None and in_window(citation.metadata.year, ghost.text, {FSS}, {S0}))",
     },
-    props={"plaintiff_at_full_span_start": "C17", "defendant_inside": "C17", "year_sound": "C18", "year_inside": "C17"})
+    props={"plaintiff_at_full_span_start": "C17", "year_sound": "C18"})
 
 loop("helpers.add_defendant", 1,
     invariant={
@@ -542,15 +540,4 @@ _A = "max(index - 2, 0)"
 ghost_code("helpers.add_defendant", "after:Assign#6",
     f"use_lemma('slice_inner', ghost.text, ghost.offs[{_A}], ghost.offs[index] - ghost.offs[{_A}], py_first(plaintiff_raw, '( '), py_last(plaintiff_raw, '( '))\n"
     f"assert citation.metadata.plaintiff == ghost.text[ghost.offs[{_A}] + py_first(plaintiff_raw, '( '):ghost.offs[{_A}] + py_last(plaintiff_raw, '( ')], 'plaintiff_is_text'")
-ghost_code("helpers.add_defendant", "after:Assign#9",
-    "use_lemma('slice_in', ghost.text[ghost.offs[start_index]:ghost.offs[citation.index]], py_first(ghost.text[ghost.offs[start_index]:ghost.offs[citation.index]], ', ('), py_last(ghost.text[ghost.offs[start_index]:ghost.offs[citation.index]], ', ('))\n"
-    "assert defendant in ghost.text[ghost.offs[start_index]:ghost.offs[citation.index]], 'defendant0_in_text'\n"
-    f"use_lemma('window_sub', ghost.text, ghost.offs[start_index], ghost.offs[citation.index], {FSS}, ghost.offs[citation.index], defendant)")
-ghost_code("helpers.add_defendant", "after:Assign#11",
-    "use_lemma('group_in_text', m_text(match), m_start(match, 'defendant'), m_end(match, 'defendant'))\n"
-    "use_lemma('group_in_text', m_text(match), m_start(match, 'year'), m_end(match, 'year'))\n"
-    "use_lemma('in_trans', defendant, m_text(match), ghost.text[ghost.offs[start_index]:ghost.offs[citation.index]])\n"
-    "use_lemma('in_trans', year, m_text(match), ghost.text[ghost.offs[start_index]:ghost.offs[citation.index]])\n"
-    f"use_lemma('window_sub', ghost.text, ghost.offs[start_index], ghost.offs[citation.index], {FSS}, ghost.offs[citation.index], defendant)\n"
-    f"use_lemma('window_sub', ghost.text, ghost.offs[start_index], ghost.offs[citation.index], {FSS}, ghost.offs[citation.index], year)\n"
-    "use_lemma('full_slice', year, 4)")
+ghost_code("helpers.add_defendant", "after:Assign#11", "use_lemma('full_slice', year, 4)")
